@@ -32,6 +32,7 @@ def scenarios(tier):
         'S2b_deep_shared_prefix': dict(threads=[[bf('d/e/a')], [bf('d/e/b')]]),
         'S3_success_and_failure_one_new_dir': dict(threads=[[bf('d/a')], [bf('d/b', 'ra')]]),
         'S3b_two_failures': dict(threads=[[bf('d/e/a', 'ra')], [bf('d/b', 'rb')]]),
+        'S3c_two_failures_two_levels_deep': dict(threads=[[bf('d/e/a', 'ra')], [bf('d/e/b', 'rb')]]),
         'S4_stale_dir_repopulated': dict(prep=[bf('d/a'), bf('d/e/z')], threads=[[bf('d/b')], [bf('d/e/y')]]),
         'S5_file_dir_swap_beside_build': dict(prep=[bf('d/e/z')], threads=[[bf('d/e')], [bf('q/b')]]),
         'S6_builds_and_queries_unrelated': dict(t0=[['w', 'i', 'A'], ['mkdir', 'u'], ['w', 'u/v', 'A']],
